@@ -7,8 +7,6 @@ import (
 	"github.com/go-openapi/spec"
 )
 
-func init() { vRegister("VerifProbeApp", VerifProbeApp) }
-
 // appGenerator for a spec, built the way newAppGenerator does but without the loader / file system
 func vAppGenerator(sw *spec.Swagger) *appGenerator {
 	doc := vDocument(sw)
@@ -29,36 +27,5 @@ func vAppGenerator(sw *spec.Swagger) *appGenerator {
 		Package: "operations", APIPackage: "operations", ModelsPackage: "models", ServerPackage: "restapi", ClientPackage: "client",
 		OperationsPackage: "restapi/operations", Principal: "", DefaultScheme: "http", DefaultProduces: "application/json", DefaultConsumes: "application/json",
 		GenOpts: opts,
-	}
-}
-
-func VerifProbeApp() {
-	sw := &spec.Swagger{}
-	sw.Swagger = "2.0"
-	sw.Info = &spec.Info{}
-	sw.Info.Title = "t"
-	sw.Info.Version = "1"
-	sw.SecurityDefinitions = spec.SecurityDefinitions{"key": spec.APIKeyAuth("X-Key", "header"), "basic": spec.BasicAuth()}
-	sw.Security = []map[string][]string{{"key": {}}}
-	op := &spec.Operation{}
-	op.ID = "getThing"
-	op.Responses = &spec.Responses{}
-	r := spec.Response{}
-	r.Description = "ok"
-	op.Responses.StatusCodeResponses = map[int]spec.Response{200: r}
-	op2 := &spec.Operation{}
-	op2.ID = "delThing"
-	op2.Security = []map[string][]string{}
-	op2.Responses = op.Responses
-	sw.Paths = &spec.Paths{Paths: map[string]spec.PathItem{"/thing": {PathItemProps: spec.PathItemProps{Get: op, Delete: op2}}}}
-	sw.Definitions = spec.Definitions{"Thing": *spec.StringProperty()}
-	a := vAppGenerator(sw)
-	app, err := a.makeCodegenApp()
-	vAssert(err == nil, "makeCodegenApp failed")
-	vCover("planned")
-	vObserve("nops", len(app.Operations))
-	vObserve("nschemes", len(app.SecurityDefinitions))
-	for _, o := range app.Operations {
-		vObserve("authorized."+o.Name, o.Authorized)
 	}
 }
